@@ -19,7 +19,9 @@
 //   al_rawdec <chain> / al_rawenc <chain>   -> "ret live peak sizes" of lzma_raw_decoder()/lzma_raw_encoder() initialisation
 //   al_streamenc <check> <chain> <hex|->    -> init lzma_stream_encoder (+ encode the bytes when given): ret live peak sizes
 //   al_aloneenc <chain(l1)> <hex|->         -> same for lzma_alone_encoder
-//   al_mtenc <threads> <blocksize> <chain> <inlen>   -> MT encoder run over <inlen> patterned bytes: "ret peak estimate"
+//   al_mtenc <threads> <blocksize> <chain> <inlen>   -> MT encoder run over <inlen> patterned bytes: "ret estimate | peak ..."
+//   al_mtsat <threads> <blocksize> <chain> <inlen>   -> the same, but output is withheld first until the encoder accepts no
+//                                              more input (all workers + the whole output queue allocated), then drained
 //   al_index <prealloc> <n1> <n2> ...       -> lzma_index_init + (optional prealloc) + n1 appends; then for each further n:
 //                                              a new index with n appends is lzma_index_cat()ed; prints live memused per step
 //   dec <kind> <flags> <limit> <sets> <chunk> <hex>    kind = xz|alone|lzip|auto ; see run_decoder()
@@ -29,6 +31,7 @@
 //   finfo <limit> <sets> <hex>              -> lzma_file_info_decoder over a whole file in memory
 #include "c09_alloc.h"
 #include "hproto.h"
+#include <time.h>
 
 #include "common.h"
 #include "lz_encoder.h"
@@ -409,6 +412,59 @@ static void op_finfo(hp_line *l)
 }
 
 // ---------------------------------------------------------------------------------------------------------------
+// Drains an encoder whose input (strm->next_in / avail_in) has already been set up.
+static lzma_ret finish_encoder(lzma_stream *strm, uint64_t *out_total)
+{
+	static uint8_t outbuf[1 << 16];
+	lzma_ret ret;
+	*out_total = 0;
+	do {
+		strm->next_out = outbuf;
+		strm->avail_out = sizeof(outbuf);
+		ret = lzma_code(strm, LZMA_FINISH);
+		*out_total += sizeof(outbuf) - strm->avail_out;
+	} while (ret == LZMA_OK);
+	return ret;
+}
+
+static double now_s(void)
+{
+	struct timespec ts;
+	clock_gettime(CLOCK_MONOTONIC, &ts);
+	return (double)ts.tv_sec + 1e-9 * (double)ts.tv_nsec;
+}
+
+// Saturates the threaded encoder: input is offered with LZMA_RUN while NO output space is given, so that every worker
+// holds a full input buffer and the output queue fills up with finished Blocks nobody reads (2 x threads buffers).
+// LZMA_BUF_ERROR (no progress twice in a row) is recoverable and simply means "still saturated".
+static lzma_ret saturate_encoder(lzma_stream *strm)
+{
+	static uint8_t dummy[1];
+	double stuck_since = -1.0;
+	for (;;) {
+		if (strm->avail_in == 0)
+			return LZMA_OK;
+		size_t before = strm->avail_in;
+		strm->next_out = dummy;
+		strm->avail_out = 0;
+		lzma_ret ret = lzma_code(strm, LZMA_RUN);
+		if (ret == LZMA_BUF_ERROR)
+			ret = LZMA_OK;
+		if (ret != LZMA_OK)
+			return ret;
+		if (strm->avail_in != before) {
+			stuck_since = -1.0;
+			continue;
+		}
+		double t = now_s();
+		if (stuck_since < 0)
+			stuck_since = t;
+		else if (t - stuck_since > 0.4)
+			return LZMA_OK;     // nothing accepted for 0.4 s: all workers and queue slots are taken
+		usleep(2000);
+	}
+}
+
 static lzma_ret run_encoder(lzma_stream *strm, const uint8_t *in, size_t len, uint64_t *out_total)
 {
 	static uint8_t outbuf[1 << 16];
@@ -455,7 +511,7 @@ static void op_al_enc(hp_line *l, int kind)
 	printf(" leak=%" PRIu64 "%s | est=%" PRIu64 "\n", cnt.live, cnt.bad_free ? " BADFREE" : "", est);
 }
 
-static void op_al_mtenc(hp_line *l)
+static void op_al_mtenc(hp_line *l, bool saturate)
 {
 	chain_t ch;
 	if (!parse_chain(l->tok[3], &ch)) { printf("bad-chain\n"); return; }
@@ -474,8 +530,15 @@ static void op_al_mtenc(hp_line *l)
 	lzma_ret ret = lzma_stream_encoder_mt(&strm, &mt);
 	uint64_t out = 0;
 	uint64_t init_live = cnt.live;
-	if (ret == LZMA_OK)
+	if (ret == LZMA_OK && saturate) {
+		strm.next_in = in;
+		strm.avail_in = len;
+		ret = saturate_encoder(&strm);
+		if (ret == LZMA_OK)
+			ret = finish_encoder(&strm, &out);
+	} else if (ret == LZMA_OK) {
 		ret = run_encoder(&strm, in, len, &out);
+	}
 	printf("%d %" PRIu64 " | init=%" PRIu64 " peak=%" PRIu64 " out=%" PRIu64 " nalloc=%" PRIu64, (int)ret, est, init_live, cnt.peak, out, cnt.nalloc);
 	lzma_end(&strm);
 	printf(" leak=%" PRIu64 "%s\n", cnt.live, cnt.bad_free ? " BADFREE" : "");
@@ -569,7 +632,9 @@ int main(void)
 		} else if (!strcmp(op, "al_aloneenc") && l.ntok == 3) {
 			op_al_enc(&l, 3);
 		} else if (!strcmp(op, "al_mtenc") && l.ntok == 5) {
-			op_al_mtenc(&l);
+			op_al_mtenc(&l, false);
+		} else if (!strcmp(op, "al_mtsat") && l.ntok == 5) {
+			op_al_mtenc(&l, true);
 		} else if (!strcmp(op, "al_index") && l.ntok >= 3) {
 			op_al_index(&l);
 		} else if (!strcmp(op, "dec") && l.ntok == 7) {
